@@ -23,6 +23,7 @@ func (tx *Tx) lockKey(key string) *metadata {
 	tx.store.mu.RLock()
 	m, ok := tx.store.metadata.Get(key)
 	tx.store.mu.RUnlock()
+	verifPoint("lockKey.afterLookup")
 	if ok {
 		if tx.holds(m) && m.writeable {
 			// the command names this key twice (RPOPLPUSH l l, SMOVE s s m, DEL k k ...):
@@ -53,6 +54,7 @@ func (tx *Tx) rLockKey(key string) *metadata {
 	tx.store.mu.RLock()
 	m, ok := tx.store.metadata.Get(key)
 	tx.store.mu.RUnlock()
+	verifPoint("rLockKey.afterLookup")
 	if ok {
 		if tx.holds(m) {
 			// already locked (for reading or writing) by this transaction
@@ -69,6 +71,7 @@ func (tx *Tx) rLockKey(key string) *metadata {
 
 func (tx *Tx) newKey(m *metadata, key string, newFn func() ds.Value) *metadata {
 	if newFn != nil {
+		verifPoint("newKey.beforePublish")
 		tx.store.mu.Lock()
 		if m.RWMutex == nil {
 			m.RWMutex = new(sync.RWMutex)
